@@ -66,6 +66,7 @@ type Report struct {
 	Sites       []Site            `json:"sites"`
 	RangeSites  []Site            `json:"range_sites"`
 	RangeNative []Site            `json:"range_left_native"`
+	GoSites     []Site            `json:"go_statements_rewritten"`
 	SyncFiles   []string          `json:"sync_redirected_files"`
 	MutatedVars []string          `json:"mutated_globals"`
 	ResetVars   []string          `json:"reset_globals"`
@@ -452,6 +453,42 @@ func instrumentPackage(fset *token.FileSet, imp types.Importer, lp *listPkg, pi 
 			site.ID = len(rep.RangeSites)
 			rep.RangeSites = append(rep.RangeSites, site)
 			return true
+		})
+
+		// 2b. go statements: the new goroutine becomes a simulated task
+		ast.Inspect(f, func(n ast.Node) bool {
+			gs, ok := n.(*ast.GoStmt)
+			if !ok {
+				return true
+			}
+			call := gs.Call
+			pos := fset.Position(gs.Pos())
+			rep.GoSites = append(rep.GoSites, Site{ID: len(rep.GoSites), File: rel, Line: pos.Line, Kind: "go"})
+			needSimrt = true
+			if fl, ok := call.Fun.(*ast.FuncLit); ok && len(call.Args) == 0 {
+				// go func() {...}()   ->   simrt.Go(func() {...})
+				add(off(gs.Pos()), int(fl.Pos()-gs.Pos()), "simrt.Go(")
+				add(off(fl.End()), int(call.End()-fl.End()), ")")
+				return true
+			}
+			// go f(a, b)   ->   simrt.Go(func() func() { __f := f; __a0 := a; __a1 := b; return func() { __f(__a0, __a1) } }())
+			// (function value and arguments are evaluated at the go statement, as the language says)
+			var pre, args strings.Builder
+			src := srcs[full]
+			text := func(a, b token.Pos) string { return string(src[off(a):off(b)]) }
+			pre.WriteString("__f := " + text(call.Fun.Pos(), call.Fun.End()) + "; ")
+			for i, a := range call.Args {
+				fmt.Fprintf(&pre, "__a%d := %s; ", i, text(a.Pos(), a.End()))
+				if i > 0 {
+					args.WriteString(", ")
+				}
+				fmt.Fprintf(&args, "__a%d", i)
+				if i == len(call.Args)-1 && call.Ellipsis.IsValid() {
+					args.WriteString("...")
+				}
+			}
+			add(off(gs.Pos()), int(gs.End()-gs.Pos()), "simrt.Go(func() func() { "+pre.String()+"return func() { __f("+args.String()+") } }())")
+			return false
 		})
 
 		// 3. yields before statements touching mutated globals
